@@ -65,3 +65,56 @@ RULES = [
     ("adjacency_matrix", r"::add_arc$", r".*", T + "mxAddArc_noUB, " + T + "mxEmpty_noUB"),
     ("adjacency_matrix", r"ArcsIterator.*next$", r".*", T + "mxArcsIterator_noUB"),
 ]
+
+
+# ---- second cover: the theorem of Thm/C13Gen.lean that proves the site safe ON THE SOURCE-REGENERATED definition
+# (Model/AlgoGen{,2,3,4}.lean, tools/translate_algo.py), or why there is none.
+G = "GraafVerif.C13Gen."
+NOT = "not regenerated: "
+JOIN_GEN = (G + "workers_do_not_panic (under the translator's run-to-completion reading of spawn/join/lock: the call "
+            "returns for every input that passes the caller's asserts, so no worker panicked)")
+RULES_GEN = [
+    ("adjacency_map", r"::<item>$", r".*", "n/a: import line"),
+    ("", r".*", r"join\(\)\.unwrap_unchecked|handle\.join\(\)", JOIN_GEN),
+    ("adjacency_map", r"::random_tournament$", r"^\.unwrap_unchecked\(\)$", JOIN_GEN),
+    ("adjacency_list", r"::complete$", r".*", JOIN_GEN),
+    ("adjacency_map", r"::random_recursive_tree$", r".*", G + "adjMap_randomRecursiveTree_noUB"),
+    ("bellman_ford_moore.rs", r".*", r".*", G + "bellmanFordMoore_noUB (g.WF; " + G + "weightedList_wf)"),
+    ("bfs.rs", r".*", r".*", G + "bfs_noUB"),
+    ("bfs_dist.rs", r"::distances$", r".*", G + "bfsDist_distances_noUB"),
+    ("bfs_dist.rs", r".*", r".*", G + "bfsDist_noUB"),
+    ("bfs_pred.rs", r"::(cycles|predecessors|shortest_path)$", r".*", G + "bfsPred_derived_noUB"),
+    ("bfs_pred.rs", r".*", r".*", G + "bfsPred_noUB"),
+    ("dfs.rs", r".*", r".*", G + "dfs_noUB"),
+    ("dfs_dist.rs", r".*", r".*", G + "dfsDist_noUB"),
+    ("dfs_pred.rs", r"::predecessors$", r".*", G + "dfsPred_predecessors_noUB"),
+    ("dfs_pred.rs", r".*", r".*", G + "dfsPred_noUB"),
+    ("dijkstra.rs", r".*", r".*", G + "dijkstra_noUB"),
+    ("dijkstra_dist.rs", r"::distances$", r".*", G + "dijkstraDist_distances_noUB"),
+    ("dijkstra_dist.rs", r".*", r".*", G + "dijkstraDist_noUB"),
+    ("dijkstra_pred.rs", r"::(predecessors|shortest_path)$", r".*", G + "dijkstraPred_derived_noUB"),
+    ("dijkstra_pred.rs", r".*", r".*", G + "dijkstraPred_noUB"),
+    ("distance_matrix.rs", r".*", r".*", NOT + "set_len + ptr::write on an uninitialised buffer is outside the translator's subset"),
+    ("floyd_warshall.rs", r".*", r".*", G + "floydWarshall_noUB (g.WF; " + G + "weightedList_wf)"),
+    ("johnson_75.rs", r"::unblock$", r".*", G + "johnson75_state_noUB"),
+    ("johnson_75.rs", r"::circuit$", r".*", G + "johnson75_circuit_noUB"),
+    ("johnson_75.rs", r"::circuits$", r".*", G + "johnson75_noUB, " + G + "johnson75_state_noUB"),
+    ("xoshiro256_star_star.rs", r".*", r".*", G + "xoshiro_noUB"),
+    ("adjacency_list", r"::complement$", r".*", G + "adjList_complement_noUB"),
+    ("adjacency_list", r"::converse$", r".*", G + "adjList_converse_noUB (AdjList.WF)"),
+    ("adjacency_list", r"::degree_sequence$", r".*", G + "adjList_degreeSequence_noUB (AdjList.WF)"),
+    ("adjacency_list", r"::is_semicomplete$", r".*", G + "adjList_isSemicomplete_noUB"),
+    ("adjacency_list", r"::random_tournament$", r".*", G + "adjList_randomTournament_noUB"),
+    ("adjacency_list", r"::merge_two_sorted$", r".*", G + "mergeTwoSorted_noUB"),
+    ("adjacency_list", r"::union$", r".*", G + "adjList_union_noUB"),
+    ("adjacency_list", r".*", r".*", NOT + "not a target of tools/translate_algo.py (hand model only)"),
+    ("adjacency_map", r"::random_tournament$", r".*", G + "adjMap_randomTournament_noUB"),
+    ("adjacency_map", r"::(merge_two_sorted|union_sets_unsafe)$", r".*", G + "mergeTwoSorted_noUB"),
+    ("adjacency_map", r"::find_partition$", r".*", G + "findPartition_noUB"),
+    ("adjacency_map", r"::union$", r"set_len|ManuallyDrop",
+     G + "adjMap_union_noUB for the accesses; the DROP discipline (ManuallyDrop / set_len(0): each entry moved out exactly once) is "
+     "INVISIBLE to the translator (ptr::read is read as a copy): hand model only, GraafVerif.C13.mapUnion_linear_sorted"),
+    ("adjacency_map", r"::union$", r".*", G + "adjMap_union_noUB"),
+    ("adjacency_map", r".*", r".*", NOT + "not a target of tools/translate_algo.py (hand model only)"),
+    ("adjacency_matrix", r".*", r".*", NOT + "not a target of tools/translate_algo.py (hand model only)"),
+]
